@@ -236,6 +236,40 @@ def run(chk):
                    "default`, which would replace a configured 0", node=fd, strength="N", or_defaults=bad)
             n5 += 1
     chk.need("C13.R5", n5, 11, "registered estimators, bets and tests")
+    # R7: the fixed alternative is the *conditional* alternative mean.  The open findings K2a are statements about this very
+    # formula (it is not clamped); a different formula is a different violation and must not hide behind them.
+    tx_, ret_, st_, fd_ = nnm.method_term(idx, "fixed_alternative_mean")
+    ret_ = symx.prune(ret_)
+    okf = True
+    seen_rows = 0
+    Ns, eta_, J_, SX_ = sp.Symbol("self.N"), sp.Symbol("self.eta"), sp.Symbol("J"), sp.Function("SX")(sp.Symbol("x"))
+    for row in rows(val_atoms(ret_)):
+        fin = row.get(FIN)
+        leaf = eval_val(ret_, row)
+        seen_rows += 1
+        want = (Ns * eta_ - SX_) / (Ns - J_ + 1) if fin else eta_
+        # a clamp around the formula (the repair of K2a a maintainer might make) leaves the formula what it is
+        core = leaf
+        while isinstance(core, (sp.Min, sp.Max)):
+            inner = [a for a in core.args if eta_ in a.free_symbols]
+            if len(inner) != 1:
+                break
+            core = inner[0]
+        try:
+            okf = okf and fin is not None and sp.cancel(sp.together(core - want)) == 0
+        except Exception:
+            okf = False
+    chk.ob("C13.R7", W("fixed_alternative_mean"), "conditional-alternative-mean", okf and seen_rows == 2,
+           "fixed_alternative_mean returns (N eta - S_{j-1})/(N - j + 1) without replacement and eta with replacement: the mean of "
+           "what is left if the alternative is true", node=fd_, returned=repr(ret_)[:200])
+    tx_, ret_, st_, fd_ = nnm.method_term(idx, "optimal_comparison")
+    ret_ = symx.prune(ret_)
+    u_, p2_ = sp.Symbol("self.u"), sp.Symbol("self.rate_error_2")
+    want = (1 - u_ * (1 - p2_)) / (2 - 2 * u_) + u_ * (1 - p2_) - sp.Rational(1, 2)
+    okf = isinstance(ret_, symx.E) and sp.cancel(sp.together(ret_.e - want)) == 0
+    chk.ob("C13.R7", W("optimal_comparison"), "documented-closed-form", okf,
+           "optimal_comparison returns (1 - u(1 - p2))/(2 - 2u) + u(1 - p2) - 1/2 with p2 the configured two-vote error rate (the "
+           "open finding K2b is a statement about this closed form)", node=fd_, returned=repr(ret_)[:200])
     # R6: u, N, t are what the caller passed, and tuning parameters given as keyword arguments become attributes
     from .. import aud as _aud
     _aud.ctor_fields(chk, "C13.R6", nnm.REL, nnm.CLS, ["u", "N", "t", "random_order"], "the ranges are stated in terms of the configured u, N, t")
